@@ -78,7 +78,7 @@ theorem validLitStringB_sound {v : Str} (h : validLitStringB v = true) : ValidLi
   unfold validLitStringB at h
   split at h
   · rename_i body
-    exact ⟨body, rfl, by simpa using h⟩
+    exact ⟨body, rfl, litStringTail_valid _ _ _ _ (by simpa using h)⟩
   · simp at h
 
 theorem validLinesB_sound {k : Nat} {ls : List Line} (h : validLinesB k ls = true) : ValidLines k ls := by
